@@ -35,6 +35,8 @@ import NeoModel.Proofs.VmSpecClone
 import NeoModel.Proofs.VmSpecStructEq
 import NeoModel.Proofs.VmSpecStep
 import NeoModel.Proofs.VmSpecFresh
+import NeoModel.Proofs.VmSpecOrder
+import NeoModel.Proofs.VmSpecEqBudget
 import NeoModel.Proofs.VmReachWalk
 open NeoModel NeoModel.Vm
 namespace NeoModel.Vm.C13
